@@ -8,9 +8,11 @@ import (
 	"io"
 	"reflect"
 	"regexp"
+	"strconv"
 	"strings"
 
 	"github.com/bytedance/sonic"
+	"github.com/bytedance/sonic/ast"
 	"github.com/bytedance/sonic/decoder"
 	"github.com/bytedance/sonic/encoder"
 
@@ -90,24 +92,48 @@ type jsonDecoder interface {
 }
 
 func runStream(d jsonDecoder, maxCalls int, offset func() int64) (res streamResult, noProgress bool) {
+	return runStreamInto(d, maxCalls, offset, func() interface{} { return new(interface{}) }, func(p interface{}) string { return gen.Dump(reflect.ValueOf(p).Elem()) })
+}
+
+// c17NodeDump: what a lazily parsed destination describes (its raw text as a token stream).
+func c17NodeDump(p interface{}) string {
+	n := p.(*ast.Node)
+	raw, err := n.Raw()
+	if err != nil {
+		return "ERR " + err.Error()
+	}
+	if toks, ok := tokensOf([]byte(raw)); ok {
+		return strings.Join(toks, " ")
+	}
+	return "NOT-JSON " + raw
+}
+
+func c17RawDump(p interface{}) string {
+	if toks, ok := tokensOf([]byte(*p.(*json.RawMessage))); ok {
+		return strings.Join(toks, " ")
+	}
+	return "NOT-JSON " + string(*p.(*json.RawMessage))
+}
+
+func runStreamInto(d jsonDecoder, maxCalls int, offset func() int64, newDst func() interface{}, dump func(interface{}) string) (res streamResult, noProgress bool) {
 	last := int64(-1)
 	if offset != nil {
 		last = offset()
 	}
-	var kept []*interface{}
+	var kept []interface{}
 	defer func() {
 		// values returned earlier must not change when Decode is called again (they
 		// must not alias the stream's read buffer)
 		for k, p := range kept {
-			if k < len(res.vals) && gen.Dump(reflect.ValueOf(p).Elem()) != res.vals[k] {
+			if k < len(res.vals) && dump(p) != res.vals[k] {
 				res.changed = append(res.changed, k)
 			}
 		}
 	}()
 	for k := 0; k < maxCalls; k++ {
-		var v interface{}
-		err := d.Decode(&v)
-		kept = append(kept, &v)
+		v := newDst()
+		err := d.Decode(v)
+		kept = append(kept, v)
 		res.calls++
 		if err != nil {
 			kept = kept[:len(kept)-1]
@@ -122,7 +148,7 @@ func runStream(d jsonDecoder, maxCalls int, offset func() int64) (res streamResu
 			}
 			return
 		}
-		res.vals = append(res.vals, gen.Dump(reflect.ValueOf(&v).Elem()))
+		res.vals = append(res.vals, dump(v))
 		if offset != nil {
 			now := offset()
 			if now <= last {
@@ -148,6 +174,19 @@ func sameVals(a, b []string) bool {
 	return true
 }
 
+var numLit = regexp.MustCompile(`-?[0-9]+(\.[0-9]+)?([eE][+-]?[0-9]+)?`)
+
+// streamHasOverflowFloat: some number-shaped token of the input (a concatenation of values,
+// possibly malformed at the end) lies beyond the float64 range.
+func streamHasOverflowFloat(input string) bool {
+	for _, m := range numLit.FindAllString(input, -1) {
+		if _, err := strconv.ParseFloat(m, 64); err != nil {
+			return true
+		}
+	}
+	return false
+}
+
 // in a stream a top-level -0 may follow any byte (0-0 is two values)
 var streamNegZero = regexp.MustCompile(`-0([^.eE]|$)`)
 
@@ -160,7 +199,8 @@ func c17Check(c *Ctx, i int, input string, mk func() *chunkReader, what string) 
 	jr := mk()
 	jres, _ := runStream(json.NewDecoder(jr), maxCalls, nil)
 	jresDefault := jres
-	for variant := 0; variant < 3; variant++ {
+	jresRaw, _ := runStreamInto(json.NewDecoder(mk()), maxCalls, nil, func() interface{} { return new(json.RawMessage) }, c17RawDump)
+	for variant := 0; variant < 5; variant++ {
 		sr := mk()
 		var sres streamResult
 		var stuck bool
@@ -172,8 +212,19 @@ func c17Check(c *Ctx, i int, input string, mk func() *chunkReader, what string) 
 			jd.UseNumber()
 			jres, _ = runStream(jd, maxCalls, nil)
 		}
+		if variant >= 3 {
+			// lazily parsed destinations keep referring to their source text: the oracle is what
+			// encoding/json delivers into a json.RawMessage (token streams)
+			jres = jresRaw
+		}
 		ok := !c.Guard(i, "stream Decode", func() {
-			if variant == 0 {
+			if variant == 3 {
+				api = "ConfigStd.NewDecoder -> *ast.Node"
+				sres, stuck = runStreamInto(sonic.ConfigStd.NewDecoder(sr), maxCalls, nil, func() interface{} { return new(ast.Node) }, c17NodeDump)
+			} else if variant == 4 {
+				api = "ConfigDefault.NewDecoder -> *ast.Node"
+				sres, stuck = runStreamInto(sonic.ConfigDefault.NewDecoder(sr), maxCalls, nil, func() interface{} { return new(ast.Node) }, c17NodeDump)
+			} else if variant == 0 {
 				api = "ConfigDefault.NewDecoder"
 				sres, stuck = runStream(sonic.ConfigDefault.NewDecoder(sr), maxCalls, nil)
 			} else if variant == 2 {
@@ -244,6 +295,9 @@ func c17Check(c *Ctx, i int, input string, mk func() *chunkReader, what string) 
 					ud.UseNumber()
 				}
 				upper, _ := runStream(ud, maxCalls, nil)
+				if variant >= 3 {
+					upper, _ = runStreamInto(json.NewDecoder(strings.NewReader(input[:jr.failAt])), maxCalls, nil, func() interface{} { return new(json.RawMessage) }, c17RawDump)
+				}
 				if streamNegZero.MatchString(input) && c.Waive["B24"] {
 					for k := range upper.vals {
 						upper.vals[k] = negZeroDump.Replace(upper.vals[k])
@@ -263,6 +317,11 @@ func c17Check(c *Ctx, i int, input string, mk func() *chunkReader, what string) 
 			}
 			if streamNegZero.MatchString(input) && sameVals(nz(sres.vals), nz(jres.vals)) && sres.term == jres.term {
 				c.Known("B24", i, api, "literal -0 decodes to +0", q(input))
+				continue
+			}
+			if variant >= 3 && isOptdec && streamHasOverflowFloat(input) {
+				// known finding B20: optdec rejects a number literal beyond the float64 range even where it is kept as text
+				c.Known("B20", i, api, "optdec rejects an out-of-range float literal that is only captured as text", q(input))
 				continue
 			}
 			d := detail()
